@@ -1,7 +1,7 @@
 SPECIFICATION SpecLists
 CONSTANTS
   Bug = ""
-  N0 = 3
+  N0 = 2
   N1 = 1
   N2 = 1
   L1 = 2
@@ -13,5 +13,5 @@ CONSTANTS
   Chars = {}
   IntParts = {}
   Sample = 1
-INVARIANTS EmitList
+INVARIANTS InvWellFormed InvRoundTrip InvPrintInMode InvRoundTripD
 CHECK_DEADLOCK FALSE
